@@ -118,8 +118,27 @@ func main() {
 		seed := fs.Uint64("seed", 1, "")
 		n := fs.Int("n", 10000, "")
 		maxFail := fs.Int("maxfail", 50, "")
+		asJSON := fs.Bool("json", false, "")
 		_ = fs.Parse(os.Args[2:])
+		oracleJSON = *asJSON
 		os.Exit(runOracle(*prop, *seed, *n, *maxFail))
+	case "judge":
+		fs := flag.NewFlagSet("judge", flag.ExitOnError)
+		prop := fs.String("prop", "C01", "")
+		_ = fs.Parse(os.Args[2:])
+		sc := bufio.NewScanner(os.Stdin)
+		sc.Buffer(make([]byte, 1<<20), 1<<28)
+		w := bufio.NewWriter(os.Stdout)
+		for sc.Scan() {
+			line := strings.TrimSpace(sc.Text())
+			if line == "" || strings.HasPrefix(line, "#") {
+				continue
+			}
+			res := execOp(line)
+			b, _ := json.Marshal(map[string]string{"op": line, "result": clip(res, 4000), "why": propertyFails(*prop, line, res)})
+			fmt.Fprintln(w, string(b))
+			w.Flush()
+		}
 	default:
 		fmt.Fprintln(os.Stderr, "unknown mode")
 		os.Exit(2)
